@@ -91,8 +91,11 @@ def nd_spec(g, p):
 
 def anm_spec(g, p, allow_param=False):
     W = rand_dag(g, p, weighted=False, density=(None if p <= 12 else 3.0 / p))
-    return {"A": enc(W), "assign": [rand_assign_spec(g, allow_param) for _ in range(p)],
-            "noise": [rand_noise_spec(g) for _ in range(p)]}
+    noise = [rand_noise_spec(g) for _ in range(p)]
+    if g.random() < 0.1:        # deterministic everywhere but at one node
+        keep = g.randrange(p)
+        noise = [rand_noise_spec(g, allow_zero=False) if i == keep else ["noise.zero"] for i in range(p)]
+    return {"A": enc(W), "assign": [rand_assign_spec(g, allow_param) for _ in range(p)], "noise": noise}
 
 
 def lganm_ivs(g, p, how=None):
@@ -104,7 +107,7 @@ def lganm_ivs(g, p, how=None):
         return None
     if how == "empty":
         return []
-    k = g.randint(1, min(p, 3))
+    k = g.randint(1, min(p, 3)) if g.random() < 0.88 else p      # sometimes every variable
     ts = g.sample(range(p), k)
     out = []
     for t in ts:
@@ -124,7 +127,7 @@ def anm_ivs(g, p, how=None):
         return "omit"
     if how == "empty":
         return []
-    k = g.randint(1, min(p, 3))
+    k = g.randint(1, min(p, 3)) if g.random() < 0.88 else p
     ts = g.sample(range(p), k)
     return [[t, rand_noise_spec(g)] for t in ts]
 
